@@ -68,7 +68,9 @@ RECURSIVE Disputed(_)
 Disputed(v) == CASE v.t = "s" -> HasDisputedWS(v.v)
                  [] v.t = "a" -> \E q \in DOMAIN v.v : Disputed(v.v[q])
                  [] OTHER -> FALSE
-Scope(cc) == IF Disputed(A(cc)) \/ Disputed(Bv(cc)) \/ (cc.kind = "tri" /\ Disputed(Cv(cc))) THEN <<>> ELSE <<Fam>>
+\* the statements pin JavaScript's string-to-number rules, so the white-space set is ES StrWhiteSpace exactly
+\* (U+FEFF is stripped, U+0085 is not); strings with those code points are in scope like any other
+Scope(cc) == <<Fam>>
 
 \* -------- invariants on the specification
 RuleEqualsRelation ==
